@@ -28,8 +28,8 @@ def need_import(path, imp):
 
 
 def load_rules():
-    rp = os.path.join(OV, "rules.py")
-    if os.path.exists(rp):
+    import glob
+    for rp in sorted(glob.glob(os.path.join(OV, "rules*.py"))):
         g = {"rule": rule, "need_import": need_import}
         exec(compile(open(rp).read(), rp, "exec"), g)
 
@@ -76,7 +76,7 @@ def make(repo, outdir, full=True):
             if n < minimum:
                 problems.append("overlay rule %r matched %d times in %s (expected >= %d)" % (pat.pattern, n, rel, minimum))
         if rel in IMPORTS:
-            src = add_imports(src, IMPORTS[rel])
+            src = add_imports(src, sorted(set(IMPORTS[rel])))
         dst = os.path.join(outdir, rel.replace("/", "__"))
         old = open(dst).read() if os.path.exists(dst) else None
         if old != src:
